@@ -21,6 +21,12 @@ fn message(ctx: &Ctx, class: &str, words: usize) -> Vec<u32> {
     match class {
         "zero" => vec![0; words],
         "ones" => vec![0xffff_ffff; words],
+        // "pat:<base-4 digits>": word i is 0 / all ones / 0x00000001 / seeded according to digit i (then repeating)
+        c if c.starts_with("pat:") => {
+            let digits: Vec<u8> = c[4..].bytes().map(|b| b - b'0').collect();
+            let sd: Vec<u32> = seeded(ctx.seed, "c18pat", words * 4).chunks(4).map(|c| u32::from_be_bytes(c.try_into().unwrap())).collect();
+            (0..words).map(|i| match digits[i % digits.len()] { 0 => 0, 1 => 0xffff_ffff, 2 => 1, _ => sd[i] | 0x8000_0001 }).collect()
+        }
         _ => seeded(ctx.seed, "c18msg", words * 4).chunks(4).map(|c| u32::from_be_bytes(c.try_into().unwrap())).collect(),
     }
 }
@@ -124,7 +130,7 @@ pub fn replay(ctx: &Arc<Ctx>, v: &Value) {
 pub fn run(ctx: &Arc<Ctx>) {
     refmodels::selftest::run(&["zuc"]).unwrap_or_else(|e| ctx.machinery_error(format!("reference self-test failed: {}", e)));
     let lmax = ctx.tier.pick(600u32, 2100);
-    ctx.set_rule("LENGTH every value 0..=600 (EIA3) / 1..=600 (EEA3) (thorough: 2100) x (bearer, direction) x key/COUNT in {test-set values, seeded} x message in {zero, ones, seeded} held in a buffer of ceil(LENGTH/32)+{0,1,2} words; EIA3 additionally every single-bit flip of the message over all 32*ceil(LENGTH/32) positions for every LENGTH <= 96 and every 37th after; long LENGTHs {2079, 5670, 16384, 65535, 65536, 65568, 100001}. quick: all lengths with 4 (bearer,direction) pairs + all 64 pairs at 9 lengths; thorough: full product. Oracle: bit-level EEA3/EIA3 over the independent ZUC, pinned by 3GPP test sets.");
+    ctx.set_rule("LENGTH every value 0..=600 (EIA3) / 1..=600 (EEA3) (thorough: 2100) x (bearer, direction) x key/COUNT in {test-set values, seeded} x message in {zero, ones, seeded} (and, at 6 lengths of 3..6 words, all 256 assignments of {zero, all-ones, last-bit-only, seeded} words to 4-word periods) held in a buffer of ceil(LENGTH/32)+{0,1,2} words; EIA3 additionally every single-bit flip of the message over all 32*ceil(LENGTH/32) positions for every LENGTH <= 96 and every 37th after; long LENGTHs {2079, 5670, 16384, 65535, 65536, 65568, 100001}. quick: all lengths with 4 (bearer,direction) pairs + all 64 pairs at 9 lengths; thorough: full product. Oracle: bit-level EEA3/EIA3 over the independent ZUC, pinned by 3GPP test sets.");
     let keys: Vec<(String, u32)> = vec![
         ("173d14ba5003731d7a60049470f00a29".into(), 0x66035492),
         ("c9e6cec4607c72db000aefa88385ab0a".into(), 0xa94059da),
@@ -155,6 +161,18 @@ pub fn run(ctx: &Arc<Ctx>) {
             for f in 0..nbits {
                 let (key, count) = &keys[(f as usize) % keys.len()];
                 cases.push(Case::Eia { key: key.clone(), count: *count, bearer: 0x0a, direction: 1, length, msg: "seed".into(), flip: Some(f), extra: 0 });
+            }
+        }
+    }
+    // word-structured messages: every assignment of {zero word, all-ones word, word with only its last bit set, seeded
+    // word} to the first 4 words (256 patterns, repeated over the message) at lengths of 3..6 words, aligned and not
+    for pat in 0..256u32 {
+        let digits: String = (0..4).map(|i| char::from(b'0' + ((pat >> (2 * i)) & 3) as u8)).collect();
+        for length in [96u32, 128, 131, 160, 189, 192] {
+            let (key, count) = &keys[(pat as usize) % keys.len()];
+            cases.push(Case::Eia { key: key.clone(), count: *count, bearer: 0x11, direction: (pat & 1), length, msg: format!("pat:{}", digits), flip: None, extra: (pat % 2) as usize });
+            if pat % 16 == 0 {
+                cases.push(Case::Eea { key: key.clone(), count: *count, bearer: 0x11, direction: (pat & 1), length, msg: format!("pat:{}", digits), extra: 0 });
             }
         }
     }
